@@ -1014,3 +1014,64 @@ def run(ctx):
 
 # evidence: how the model is tied to the source on every run (as built, supersedes the value above)
 TIE = 'translator (spectra assembly -> Gen/SdofSpectra, constants -> Gen/Consts; Props/C03Gen, C03GenSpectra) + correspondence'
+
+
+# ---- round-5 lessons: jobs beyond 2^24 cells after up-sampling; periods changed through response_series -------------------------------------
+
+def extras_r5(ctx):
+    import eqsig
+    from eqsig import sdof
+    rng = ctx.rng
+    # (a) a HUGE object-level job: npts x periods x up-sampling factor > 2^24 cells.  The step rule target_dt = max(Tmin/20, dt/min_dt_ratio)
+    # depends on the shortest period only, so a short period list with the same shortest period gives the same entries, bit for bit
+    for n, npd, ratio in ([(1100, 2000, 8)] if ctx.tier == 'quick' else [(1100, 2000, 8), (2100, 1100, 8), (4200, 1000, 4)]):
+        dt = 0.02
+        a = gen.noise_record(rng, n) * np.exp(-((np.arange(n) - n / 3) / (n / 5)) ** 2)
+        periods = np.exp(np.linspace(np.log(0.05), np.log(4.0), npd))       # Tmin/20 = 0.0025 = dt/8: up-sampling by 8 is requested
+        big = eqsig.AccSignal(a, dt)
+        r = call_impl(lambda: (big.gen_response_spectrum(response_times=periods, min_dt_ratio=ratio), np.array(big.s_d), np.array(big.s_v), np.array(big.s_a))[1:])
+        inputs = {'a': f'noise x envelope, n={n} (seeded)', 'dt': dt, 'periods': f'{npd} log-spaced 0.05..4 s', 'min_dt_ratio': ratio, 'cells_after_upsampling': n * npd * ratio}
+        ctx.hist(f'huge job/{n}x{npd}x{ratio}')
+        ctx.count_case(('huge', n, npd, ratio), True, sample={'fn': 'AccSignal.gen_response_spectrum (huge job)', **inputs})
+        if r[0] != 'ok':
+            ctx.oracle('C03 gen_response_spectrum returns for a huge job', False, inputs, detail=r)
+            continue
+        idx = sorted(set([0, 1, npd // 2, npd - 1] + [rng.randrange(npd) for _ in range(8)]))
+        small = eqsig.AccSignal(a, dt)
+        small.gen_response_spectrum(response_times=periods[idx], min_dt_ratio=ratio)
+        ok = all(np.array_equal(x[idx], y) for x, y in zip(r[1], (small.s_d, small.s_v, small.s_a)))
+        ctx.oracle('C03 object-level spectra of a HUGE job (> 2^24 cells after up-sampling) == the same periods computed in a short list with the same shortest period (==)',
+                   bool(ok), {**inputs, 'rows': idx}, detail={'huge s_a': r[1][2][idx][:4], 'short s_a': np.asarray(small.s_a)[:4]})
+    # (b) periods changed THROUGH response_series / gen_response_spectrum arguments after the spectra were cached: s_a/s_v/s_d follow
+    for it in range(8 if ctx.tier == 'quick' else 60):
+        n = rng.randint(30, 150)
+        a = gen.noise_record(rng, n)
+        o = eqsig.AccSignal(a, 0.01)
+        t1 = np.array(sorted(rng.uniform(0.1, 2.0) for _ in range(rng.randint(2, 4))))
+        t2 = np.array(sorted(rng.uniform(0.1, 2.0) for _ in range(rng.randint(2, 5))))
+        how = rng.choice(['response_series(response_times=)', 'response_series positional', 'gen_response_spectrum then response_series'])
+        _ = o.s_a if rng.random() < 0.5 else o.gen_response_spectrum(response_times=t1)
+        if how == 'response_series(response_times=)':
+            o.response_series(response_times=t2)
+        elif how == 'response_series positional':
+            o.response_series(t2)
+        else:
+            o.gen_response_spectrum(response_times=t1)
+            o.response_series(response_times=t2, xi=0.05)
+        f = eqsig.AccSignal(a, 0.01, response_times=t2)
+        got = call_impl(lambda: (np.array(o.s_a), np.array(o.s_v), np.array(o.s_d), np.array(o.response_times)))
+        want = (np.array(f.s_a), np.array(f.s_v), np.array(f.s_d), t2)
+        ok = got[0] == 'ok' and all(np.shape(x) == np.shape(y) and np.array_equal(x, y) for x, y in zip(got[1], want))
+        ctx.hist('periods changed through response_series/' + how)
+        ctx.oracle('C03 object-level spectra follow the periods last set, also when they were set through response_series(response_times=...) after the spectra were cached',
+                   ok, {'a': a, 'dt': 0.01, 'first_periods': t1, 'then': how, 'new_periods': t2},
+                   detail=None if ok else {'s_a': got[1][0] if got[0] == 'ok' else got, 'fresh s_a': want[0]})
+
+
+_run_main_r5 = run
+
+
+def run(ctx):
+    _run_main_r5(ctx)
+    extras_r5(ctx)
+    ctx.flush()
